@@ -203,6 +203,17 @@ def _worker(check_factory, tier, wseed, max_examples, widx, q):
             except Violation as v:
                 state['last_fail'] = case
                 state['msg'] = str(v)
+                if 'first_fail' not in state:
+                    state['first_fail'], state['first_msg'] = case, str(v)
+                if getattr(check, 'schedule_sampled', False):
+                    # schedule-dependent failures: keep the candidate and go on searching (the first one found may be the hardest to see again);
+                    # all candidates are replayed at the end
+                    # (the largest workloads are kept: they depend least on how busy the machine happens to be)
+                    cands = state.setdefault('candidates', [])
+                    cands.append((case, str(v)))
+                    cands.sort(key=lambda c: -len(jdump(c[0])))
+                    del cands[12:]
+                    return
                 raise
             for c in info.get('classes', ()):
                 stats.classes[c] += 1
@@ -230,6 +241,10 @@ def _worker(check_factory, tier, wseed, max_examples, widx, q):
             fail = {'case': state['last_fail'], 'msg': state['msg'] or str(v)}
         except hypothesis.errors.Flaky as f:
             fail = {'case': state['last_fail'], 'msg': 'flaky: ' + (state['msg'] or str(f)), 'flaky': True}
+        if fail is None and state.get('candidates'):
+            fail = {'case': state['candidates'][0][0], 'msg': state['candidates'][0][1], 'candidates': state['candidates']}
+        if fail is not None and 'first_fail' in state:
+            fail['first_case'], fail['first_msg'] = state['first_fail'], state['first_msg']     # the case as first found, before shrinking
         if hasattr(check, 'finish'):
             check.finish(stats)
         try:
@@ -262,7 +277,11 @@ def run_hypothesis(check_factory, tier, seed, max_examples, workers):
         else:
             total.merge(payload)
             if fail and (failure is None or len(jdump(fail['case'])) < len(jdump(failure['case']))):
+                if failure is not None:
+                    fail['candidates'] = (fail.get('candidates') or []) + (failure.get('candidates') or [])
                 failure = fail
+            elif fail and failure is not None:
+                failure['candidates'] = (failure.get('candidates') or []) + (fail.get('candidates') or [])
     for p in procs:
         p.join()
     if errors:
@@ -397,12 +416,28 @@ def main_check(check_factory, argv=None):
     wall = time.time() - t0
     rc = 0
     if failure is not None:
-        # confirm 3x outside Hypothesis before reporting
+        # confirm outside Hypothesis before reporting: a deterministic check must fail 3 times out of 3; a check whose thread schedules are sampled by the
+        # operating system (schedule_sampled) replays the workload up to 12 times and reports when the violation shows again at least once - there the
+        # oracle is exact (it reads what the real code left behind) and only the interleaving varies
         confirm = None
-        for _ in range(3):
-            confirm = replay_case(check_factory(tier), failure['case'])
-            if confirm is None:
-                break
+        if getattr(check, 'schedule_sampled', False):
+            # shrinking works against a schedule-dependent failure (the smallest workload that failed once fails least often): the case as first found is tried first
+            todo = sorted(failure.get('candidates') or [], key=lambda c: -len(jdump(c[0])))[:24] + [(failure.get('first_case'), failure.get('first_msg')), (failure['case'], failure['msg'])]
+            for cand, cmsg in todo:
+                if cand is None:
+                    continue
+                for _ in range(6):
+                    confirm = replay_case(check_factory(tier), cand)
+                    if confirm is not None:
+                        failure = dict(failure, case=cand, msg=confirm)
+                        break
+                if confirm is not None:
+                    break
+        else:
+            for _ in range(3):
+                confirm = replay_case(check_factory(tier), failure['case'])
+                if confirm is None:
+                    break
         if confirm is None and not failure.get('path'):
             print('NOTE: failing case did not reproduce on replay (not reported): %s' % failure['msg'][:5000])
             stats.extra['unreproducible_failures'] = 1
